@@ -117,12 +117,13 @@ func infraParams(x int64) *providertypes.InfractionParameters {
 	}
 }
 
-// spawn time of an initialized consumer: far in the future, the one of c1 first
+// spawn time of an initialized consumer: far in the future and shared by all of them (one time-queue entry
+// holding several ids), except that the one of c1 comes first when the operation is the launch of c1
 func (d *fdrv) futureSpawn(c int64) time.Time {
-	if c == d.k.C1 {
+	if c == d.k.C1 && num(d.k.Op[0]) == 7 {
 		return common.T0.Add(9000 * time.Hour)
 	}
-	return common.T0.Add(time.Duration(10000+c) * time.Hour)
+	return common.T0.Add(10000 * time.Hour)
 }
 
 func (d *fdrv) must(what string, r common.Result) {
@@ -278,28 +279,28 @@ func (d *fdrv) setup() {
 			}
 		}
 	}
-	// 7. stopped consumers, c1 first (so that its removal time is the earliest), one block apart;
-	//    queued infraction parameters likewise
-	order := []*consumerSpec{}
-	for i := range k.Cons {
-		if k.Cons[i].ID == k.C1 {
-			order = append(order, &k.Cons[i])
-		}
-	}
-	for i := range k.Cons {
-		if k.Cons[i].ID != k.C1 {
-			order = append(order, &k.Cons[i])
-		}
-	}
-	for _, s := range order {
+	// 7. stopped consumers and queued infraction parameters: all in one block (shared time-queue entries), except
+	//    that c1 goes first in a block of its own when the operation is its timed event (so that only it is due)
+	kind := num(k.Op[0])
+	stopOrQueue := func(s *consumerSpec) {
 		if s.Phase == 4 {
-			env.NextBlock(time.Second)
 			d.must("remove", d.remove(s.ID))
 		}
 		if (s.Phase == 2 || s.Phase == 3) && s.QInfra {
-			env.NextBlock(time.Second)
 			d.must("queue infraction", env.Deliver(&providertypes.MsgUpdateConsumer{Owner: ownerAddr(s.ID), ConsumerId: cid(s.ID),
 				InfractionParameters: infraParams(50 + s.ID)}))
+		}
+	}
+	env.NextBlock(time.Second)
+	if kind == 8 || kind == 9 {
+		if s := d.spec[k.C1]; s != nil {
+			stopOrQueue(s)
+		}
+		env.NextBlock(time.Second)
+	}
+	for i := range k.Cons {
+		if s := &k.Cons[i]; !((kind == 8 || kind == 9) && s.ID == k.C1) {
+			stopOrQueue(s)
 		}
 	}
 	env.NextBlock(time.Second)
@@ -344,18 +345,41 @@ func (d *fdrv) snapshot(c int64) string {
 	p("deny", K.GetDenyList(ctx, id))
 	p("prio", K.GetPriorityList(ctx, id))
 	p("optin", K.GetAllOptedIn(ctx, id))
+	// messages with pointer fields are serialized (a %v of a pointer is an address)
+	pm := func(label string, m interface{ Marshal() ([]byte, error) }) {
+		bz, err := m.Marshal()
+		if err != nil {
+			panic(err)
+		}
+		fmt.Fprintf(&b, "%s=%x;", label, bz)
+	}
 	vs, e7 := K.GetConsumerValSet(ctx, id)
-	p("valset", vs, e7 == nil)
-	p("pubkeys", K.GetAllValidatorConsumerPubKeys(ctx, &id))
-	p("byaddr", K.GetAllValidatorsByConsumerAddr(ctx, &id))
-	p("prune", K.GetAllConsumerAddrsToPrune(ctx, id))
+	p("valset", len(vs), e7 == nil)
+	for i := range vs {
+		pm("val", &vs[i])
+	}
+	for _, x := range K.GetAllValidatorConsumerPubKeys(ctx, &id) {
+		x := x
+		pm("pubkey", &x)
+	}
+	for _, x := range K.GetAllValidatorsByConsumerAddr(ctx, &id) {
+		x := x
+		pm("byaddr", &x)
+	}
+	for _, x := range K.GetAllConsumerAddrsToPrune(ctx, id) {
+		x := x
+		pm("prune", &x)
+	}
 	for _, a := range K.GetAllCommissionRateValidators(ctx, id) {
 		r, ok := K.GetConsumerCommissionRate(ctx, id, a)
 		p("comm", a, r, ok)
 	}
 	mp, ok := K.GetMinimumPowerInTopN(ctx, id)
 	p("minpower", mp, ok)
-	p("pending", K.GetPendingVSCPackets(ctx, id))
+	for _, x := range K.GetPendingVSCPackets(ctx, id) {
+		x := x
+		pm("pending", &x)
+	}
 	p("acks", K.GetSlashAcks(ctx, id))
 	ih, ok := K.GetInitChainHeight(ctx, id)
 	p("initheight", ih, ok)
